@@ -39,6 +39,7 @@ class Case:
         self.opts = case.get('opts', {}) or {}
         self.naming = self.P.get('naming') or {}
         # atoms some leaf spells through a type alias (type A_T = T)
+        self.hidden = {}
         self.aliased = set()
         for l in self.P.get('leaves', []):
             if l.get('alias'):
@@ -314,6 +315,10 @@ class Case:
             return 'wire.Struct(%s)' % ', '.join(args)
         if k == 'structlit':
             return self.gotype(l['s'], frompkg, used) + '{}'
+        if k == 'value' and l.get('inacc'):
+            # an expression that mentions an unexported identifier of the package it is written in
+            self.hidden.setdefault(frompkg, []).append((l['name'], self.gotype(l['out'], frompkg, used), self.valexpr(l['out'], 'V:' + l['name'], frompkg, used)))
+            return 'wire.Value(hidden%s)' % l['name']
         if k == 'value':
             e = l['expr'] or self.valexpr(l['out'], 'V:' + l['name'], frompkg, used)
             if l.get('alias'):
@@ -344,6 +349,8 @@ class Case:
                 body.append('var %s = %s\n' % (self.nm(s['name']), init))
         for g, lst in groups.items():
             body.append('var %s = %s\n' % (', '.join(n for n, _ in lst), ', '.join(i for _, i in lst)))
+        for (hn, hty, hexpr) in self.hidden.get(pkg, []):
+            body.append('var hidden%s %s = %s\n' % (hn, hty, hexpr))
         if not body:
             return None
         return self.dotwire('package %s\n\n%s%s' % (self.goname(pkg), self.imports(pkg, used, ['"github.com/google/wire"']), '\n'.join(body)))
